@@ -914,7 +914,7 @@ class TT():
         Returns:
             torchtt.TT: the result.
         """
-        if isinstance(other, int) or isinstance(other, float) or tn.is_tensor(other):
+        if isinstance(other, int) or isinstance(other, float) or (tn.is_tensor(other) and other.numel() == 1):
             # divide by a scalar
             cores_new = self.cores.copy()
             cores_new[0] = cores_new[0] / other
